@@ -5,7 +5,9 @@
 //   g<w>:<chain>:<height>:<cfg>                  syncGenesisHeader; w=1: the transaction carries the operator's witness
 //   b:<chain>:<height>:<bks>:<sigs>:<cfg>        syncBlockHeader with ONE header
 //   cfg   = "-" (payload without new_chain_config) | "!" (payload is not JSON) | "p" id.id...  (new peer set; "p" = empty set)
-//   id    = index into the key pool (0..NKEYS-1), or >= 100: a peer id string that is nobody's public key
+//   id    = index into the key pool (0..NKEYS-1), or >= 100: a peer id string that is nobody's public key; optionally id@idx where
+//           idx is the uint32 PeerConfig.Index stored with the peer (default: position+1). The index is opaque data: the
+//           property and the model do not depend on it
 //   bks   = "-" | k.k.k  (pool indexes, in header order, duplicates allowed)
 //   sigs  = "-" | tok.tok  with tok = s<k> (signature of pool key k over this header's hash) | w<k> (signature of k over
 //           another message) | x (bytes that are not a signature)
@@ -97,6 +99,33 @@ func parseInts(s string) []int {
 	return out
 }
 
+// "0@64.1.2@4294967295" -> ids [0 1 2], indexes [64 2 4294967295]
+func parsePeers(s string) ([]int, []uint32) {
+	if s == "-" || s == "" {
+		return nil, nil
+	}
+	var ids []int
+	var idxs []uint32
+	for i, p := range strings.Split(s, ".") {
+		idx := uint32(i + 1)
+		if k := strings.IndexByte(p, '@'); k >= 0 {
+			v, err := strconv.ParseUint(p[k+1:], 10, 32)
+			if err != nil {
+				panic("bad peer index " + p)
+			}
+			idx = uint32(v)
+			p = p[:k]
+		}
+		n, err := strconv.Atoi(p)
+		if err != nil {
+			panic("bad peer list " + s)
+		}
+		ids = append(ids, n)
+		idxs = append(idxs, idx)
+	}
+	return ids, idxs
+}
+
 func payload(cfg string) []byte {
 	switch {
 	case cfg == "-":
@@ -106,8 +135,9 @@ func payload(cfg string) []byte {
 		return []byte("{not json")
 	case strings.HasPrefix(cfg, "p"):
 		cc := &vconfig.ChainConfig{}
-		for i, id := range parseInts(cfg[1:]) {
-			cc.Peers = append(cc.Peers, &vconfig.PeerConfig{Index: uint32(i + 1), ID: peerID(id)})
+		ids, idxs := parsePeers(cfg[1:])
+		for i, id := range ids {
+			cc.Peers = append(cc.Peers, &vconfig.PeerConfig{Index: idxs[i], ID: peerID(id)})
 		}
 		b, _ := json.Marshal(&vconfig.VbftBlockInfo{NewChainConfig: cc})
 		return b
@@ -443,6 +473,46 @@ func genPeers(r *hx.Rand) []int {
 	return ps
 }
 
+var idxPool = []uint32{0, 1, 2, 3, 5, 7, 31, 32, 33, 62, 63, 64, 65, 66, 70, 100, 127, 128, 129, 255, 256, 1000, 65535, 65536,
+	1<<31 - 1, 1 << 31, 1<<31 + 1, 1<<32 - 2, 1<<32 - 1}
+
+// the config text of a peer set: ids with the uint32 index the chain config gives each peer
+func renderPeers(r *hx.Rand, ps []int) string {
+	if len(ps) == 0 {
+		return "p"
+	}
+	mode := r.Intn(10)
+	var toks []string
+	base := uint32(r.U64())
+	used := map[uint32]bool{}
+	for i, p := range ps {
+		switch {
+		case mode < 2: // positions 1..n, as a freshly started chain numbers its peers
+			toks = append(toks, strconv.Itoa(p))
+			continue
+		}
+		var idx uint32
+		switch {
+		case mode < 7: // boundary values, distinct
+			for k := 0; k < 20; k++ {
+				idx = idxPool[r.Intn(len(idxPool))]
+				if !used[idx] {
+					break
+				}
+			}
+		case mode < 8: // a contiguous run somewhere in uint32
+			idx = base + uint32(i)
+		case mode < 9: // arbitrary
+			idx = uint32(r.U64())
+		default: // indexes need not be unique in a config
+			idx = idxPool[r.Intn(4)+10]
+		}
+		used[idx] = true
+		toks = append(toks, fmt.Sprintf("%d@%d", p, idx))
+	}
+	return "p" + strings.Join(toks, ".")
+}
+
 func realPeers(ps []int) []int {
 	seen := map[int]bool{}
 	var out []int
@@ -595,7 +665,7 @@ func gen(r *hx.Rand, tier string, i int) string {
 		ps := genPeers(r)
 		h0 := uint32(r.Intn(3))
 		w := "1"
-		cfg := "p" + strings.ReplaceAll(joinInts(ps), "-", "")
+		cfg := renderPeers(r, ps)
 		switch {
 		case r.Chance(4):
 			w = "0"
@@ -631,7 +701,7 @@ func gen(r *hx.Rand, tier string, i int) string {
 		var np []int
 		if r.Chance(25) {
 			np = genPeers(r)
-			cfg = "p" + strings.ReplaceAll(joinInts(np), "-", "")
+			cfg = renderPeers(r, np)
 		} else if r.Chance(3) {
 			cfg = "!"
 		}
@@ -645,7 +715,7 @@ func gen(r *hx.Rand, tier string, i int) string {
 		}
 		if r.Chance(3) { // operator re-syncs a "genesis" at some height
 			ps := genPeers(r)
-			ops = append(ops, fmt.Sprintf("g1:%d:%d:p%s", c, height, strings.ReplaceAll(joinInts(ps), "-", "")))
+			ops = append(ops, fmt.Sprintf("g1:%d:%d:%s", c, height, renderPeers(r, ps)))
 			s.kh = append(s.kh, height)
 			s.peers[height] = ps
 		}
@@ -689,6 +759,12 @@ var corpus = []string{
 	"S g1:1:0:p0.1.2;b:1:1:0.1:s0.s1.x:-;b:1:2:0.1:x.s0.s1:-;b:1:3:0.1:s0:-",
 	// ghost peer id counts in the set size
 	"S g1:1:0:p0.1.100;b:1:1:0:s0:-;b:1:2:0.1:s0.s1:-",
+	// peer indexes are opaque uint32 data: duplicates of a peer whose index is >= 64 / huge / shared must be refused like any other
+	"S g1:1:0:p0@64.1@1.2@2.3@3.4@4.5@5.6@6;b:1:1:0.0.0.0.0:s0.s0.s0.s0.s0:-",
+	"S g1:1:0:p0@4294967295.1@2147483648.2@70;b:1:1:0.0:s0.s0:-;b:1:2:1.1:s1.s1:-;b:1:3:2.2:s2.s2:-;b:1:4:0.1:s0.s1:-",
+	"S g1:1:0:p0@63.1@64.2@65.3@128;b:1:1:0.0.0:s0.s0.s0:-;b:1:2:1.1.1:s1.s1.s1:-;b:1:3:3.2.3:s3.s2.s3:-;b:1:4:3.2.1:s3.s2.s1:-",
+	// two peers sharing one index are still two peers
+	"S g1:1:0:p0@5.1@5.2@69.3@5;b:1:1:0.1.3:s0.s1.s3:-;b:1:2:0.0.1:s0.s0.s1:-",
 	// bad payload on an otherwise valid header: the transaction fails and stores nothing
 	"S g1:1:0:p0;b:1:1:0:s0:!;b:1:1:0:s0:-",
 }
